@@ -11,6 +11,22 @@ def geom(n):
     return (1024, 128) if n > 256 else (512, 64)
 
 
+_POOL = {}
+
+
+def reused(key, make):
+    """an object that has already answered another call with non-default per-call options: the judged call is its second call"""
+    o = make()
+    try:
+        if key in ('s', 'b'):
+            o(b'\xa5' * 150, outlen=9, salt=b'\x33' * (o.wsize // 4), fanout=3, depth=2, inner=5)
+        else:
+            o(b'\xa5' * 150, 77, bitlen=1197)
+    except Exception:
+        pass
+    return o
+
+
 def data(kind, n):
     return {'ramp': lambda: ramp(n, 13, n), 'exp': lambda: expander(n, 1), 'ff': lambda: b'\xff' * n}[kind]()
 
@@ -49,6 +65,8 @@ def run_bits(ctx, pt):
     else:
         got = ctx.attempt(lambda: Blake(n)(m, bitlen=L))
     ctx.eq('C11/blake%d/bit-length-digest' % n, got, ('ok', RB.blake(n, m, L)))
+    if L:
+        ctx.eq('C11/blake%d/bit-length-digest/reused-object' % n, ctx.attempt(lambda: reused(n, lambda: Blake(n))(m, bitlen=L)), ('ok', RB.blake(n, m, L)))
     if L % 8 == 0 and L:
         ctx.eq('C11/blake%d/byte-digest' % n, ctx.attempt(lambda: Blake(n)(m)), ('ok', RB.blake(n, m)))
 
@@ -100,6 +118,10 @@ def run_salt(ctx, pt):
     m = data('exp', (L + 7) // 8)
     r = ctx.attempt(lambda: Blake(n)(m + b'\x5a' * extra, s, bitlen=L))
     ctx.eq('C11/blake%d/%s' % (n, 'salted-digest' if s else 'prefix-of-longer-container'), r, ('ok', RB.blake(n, m, L, salt=s)))
+    r = ctx.attempt(lambda: reused(n, lambda: Blake(n))(m + b'\x5a' * extra, s, bitlen=L))
+    ctx.eq('C11/blake%d/salted-digest/reused-object' % n, r, ('ok', RB.blake(n, m, L, salt=s)))
+    r = ctx.attempt(lambda: reused(n, lambda: Blake(n))(m[:5]))
+    ctx.eq('C11/blake%d/unsalted-after-salted/reused-object' % n, r, ('ok', RB.blake(n, m[:5])))
 
 
 def pts_single(tier):
@@ -166,6 +188,7 @@ def run_b2len(ctx, pt):
         r = ctx.attempt(lambda: mk2(v)(m))
         cls = 'one-block' if ln <= bl else ('whole-blocks' if ln % bl == 0 else 'multi-block')
         ctx.eq('C11/blake2%s/%s' % (v, cls), r, ('ok', h2(v)(m).digest()))
+        ctx.eq('C11/blake2%s/%s/reused-object' % (v, cls), ctx.attempt(lambda: reused(v, lambda: mk2(v))(m)), ('ok', h2(v)(m).digest()))
 
 
 def pts_b2par(tier):
@@ -190,6 +213,14 @@ def pts_b2par(tier):
 
 
 def run_b2par(ctx, pt):
+    _run_b2par(ctx, pt, mk2, '')
+    # the same parameter calls on one long-lived object, each followed by a default call: parameters apply to their call only
+    _run_b2par(ctx, pt, lambda v: reused(v, lambda: mk2(v)), '/reused-object')
+    v = pt[0]
+    ctx.eq('C11/blake2%s/default-call-after-parameters/reused-object' % v, ctx.attempt(lambda: reused(v, lambda: mk2(v))(b'abc')), ('ok', h2(v)(b'abc').digest()))
+
+
+def _run_b2par(ctx, pt, mk2, sfx):
     v = pt[0]
     bl = 128 if v == 'b' else 64
     sl = 16 if v == 'b' else 8
@@ -197,7 +228,7 @@ def run_b2par(ctx, pt):
     if pt[1] == 'outlen':
         for m in msgs:
             r = ctx.attempt(lambda: mk2(v)(m, outlen=pt[2]))
-            ctx.eq('C11/blake2%s/outlen' % v, r, ('ok', h2(v)(m, digest_size=pt[2]).digest()))
+            ctx.eq('C11/blake2%s/outlen%s' % (v, sfx), r, ('ok', h2(v)(m, digest_size=pt[2]).digest()))
             if r[0] == 'ok':
                 ctx.eq('C11/blake2%s/outlen-length' % v, len(r[1]), pt[2])
     elif pt[1] == 'saltpers':
@@ -205,15 +236,15 @@ def run_b2par(ctx, pt):
         pers = b'' if pt[2] & 2 == 0 else ramp(sl, 5, 0x61)
         for m in msgs:
             r = ctx.attempt(lambda: mk2(v)(m, salt=salt, pers=pers))
-            ctx.eq('C11/blake2%s/salt-personalization' % v, r, ('ok', h2(v)(m, salt=salt, person=pers).digest()))
+            ctx.eq('C11/blake2%s/salt-personalization%s' % (v, sfx), r, ('ok', h2(v)(m, salt=salt, person=pers).digest()))
             r = ctx.attempt(lambda: mk2(v)(m, salt=salt, pers=pers, outlen=20))
-            ctx.eq('C11/blake2%s/salt-personalization' % v, r, ('ok', h2(v)(m, salt=salt, person=pers, digest_size=20).digest()))
+            ctx.eq('C11/blake2%s/salt-personalization%s' % (v, sfx), r, ('ok', h2(v)(m, salt=salt, person=pers, digest_size=20).digest()))
     else:
         fan, dep, leaf, nof, ndp, inn = pt[2:]
         for m in (msgs[1], msgs[2]):
             r = ctx.attempt(lambda: mk2(v)(m, fanout=fan, depth=dep, leafl=leaf, noffset=nof, ndepth=ndp, inner=inn))
             exp = h2(v)(m, fanout=fan, depth=dep, leaf_size=leaf, node_offset=nof, node_depth=ndp, inner_size=inn).digest()
-            ctx.eq('C11/blake2%s/tree-parameters' % v, r, ('ok', exp))
+            ctx.eq('C11/blake2%s/tree-parameters%s' % (v, sfx), r, ('ok', exp))
 
 
 def pts_b2single(tier):
